@@ -73,6 +73,46 @@ func rulePanicCensus(w *World, r *RuleResult) {
 				}
 			}
 		}
+		// table form: String ranges over a package-level table of (flag, name) entries that initialisation
+		// fills with constants: every flag stored into that table has a name
+		usedGlobals := map[*ssa.Global]bool{}
+		for _, b := range sblocks {
+			for _, in := range b.Instrs {
+				for _, op := range in.Operands(nil) {
+					if *op == nil {
+						continue
+					}
+					if g, isG := (*op).(*ssa.Global); isG && g.Pkg == w.SSA {
+						usedGlobals[g] = true
+					}
+				}
+			}
+		}
+		for _, n := range w.Names {
+			if !strings.HasPrefix(n, "init") {
+				continue
+			}
+			initF := w.Funcs[n]
+			// locals whose value is stored into one of the tables String uses
+			tableLocals := map[ssa.Value]bool{}
+			for _, st := range storesIn(initF) {
+				if g, isG := st.Addr.(*ssa.Global); isG && usedGlobals[g] {
+					if ld, isLd := st.Val.(*ssa.UnOp); isLd && ld.Op == token.MUL {
+						tableLocals[basePtr(ld.X)] = true
+					}
+				}
+			}
+			for _, st := range storesIn(initF) {
+				v, isK := condBits(st.Val)
+				if !isK || !typeIs(st.Val.Type(), apdPath, "Condition") {
+					continue
+				}
+				base := basePtr(st.Addr)
+				if g, isG := base.(*ssa.Global); isG && usedGlobals[g] || tableLocals[base] {
+					seen[v] = true
+				}
+			}
+		}
 		// flags cleared from the receiver up front (r &^= mask) never reach the switch
 		var masked uint64
 		for _, in := range f.Blocks[0].Instrs {
@@ -308,7 +348,15 @@ func ruleNilArgs(w *World, r *RuleResult) {
 // returns nil in that position only together with a non-nil error, and the
 // call site is dominated by that error having been found nil.
 func (w *World) nilExcludedAt(f *ssa.Function, a ssa.Value, c ssa.CallInstruction) bool {
-	for _, g := range guardsAt(c.Block()) {
+	return w.nilExcludedAtBlock(f, a, c.Block(), 0)
+}
+
+// nilExcludedAtBlock: a cannot be nil where block `at` is reached.
+func (w *World) nilExcludedAtBlock(f *ssa.Function, a ssa.Value, at *ssa.BasicBlock, depth int) bool {
+	if depth > 3 {
+		return false
+	}
+	for _, g := range guardsAt(at) {
 		if bo, ok := g.Cond.(*ssa.BinOp); ok && (bo.X == a && isNilConst(bo.Y) || bo.Y == a && isNilConst(bo.X)) {
 			if (bo.Op == token.NEQ && g.Val) || (bo.Op == token.EQL && !g.Val) {
 				return true
@@ -344,12 +392,16 @@ func (w *World) nilExcludedAt(f *ssa.Function, a ssa.Value, c ssa.CallInstructio
 				nilHere = true
 			}
 		}
-		if nilHere && !w.isErrorReturn(rt) {
+		if nilHere && !w.isErrorReturn(rt) && !definitelyErr(rt) {
+			// a wrapper that hands on the results of such a helper where it found the helper's error nil
+			if w.nilExcludedAtBlock(h, rt.Results[ex.Index], b, depth+1) {
+				continue
+			}
 			return false
 		}
 	}
 	// the use is dominated by err == nil
-	for _, g := range guardsAt(c.Block()) {
+	for _, g := range guardsAt(at) {
 		bo, ok := g.Cond.(*ssa.BinOp)
 		if !ok {
 			continue
